@@ -55,6 +55,7 @@ func marathon(r *ev.Run, idx int) {
 		return
 	}
 	defer func() { f.Drop() }()
+	var confirmedEarlier []*pb.Transaction
 	rounds := 22 + rng.Intn(6)
 	for round := 1; round <= rounds; round++ {
 		// refill the producer's pool: 0..5 transactions, some of them big (the limit is 0.8 MB)
@@ -80,6 +81,27 @@ func marathon(r *ev.Run, idx int) {
 				ops = append(ops, fmt.Sprintf("r%d:submit(%s)", round, kind))
 				r.Count("marathon.submitted", 1)
 			}
+		}
+		// now and then a client sends a transaction again that an earlier block has confirmed (a
+		// retry, a replay): refused or not, what the node packs next must still be a valid block
+		if len(confirmedEarlier) > 0 && rng.Intn(3) == 0 {
+			x := confirmedEarlier[rng.Intn(len(confirmedEarlier))]
+			c := sn.CloneTx(x)
+			c.Blockid = nil
+			var err error
+			if rng.Intn(2) == 0 {
+				err = p.SubmitTx(c) // within the engine's 120 s duplicate-id cache
+			} else if ok, verr := p.State.VerifyTx(c); !ok || verr != nil { // the cache has expired / the node was restarted
+				err = fmt.Errorf("verify: %v", verr)
+			} else {
+				err = p.State.DoTx(c)
+			}
+			if err == nil {
+				r.Count("marathon.resubmitted-confirmed.admitted", 1)
+			} else {
+				r.Count("marathon.resubmitted-confirmed.refused", 1)
+			}
+			ops = append(ops, fmt.Sprintf("r%d:resubmit-confirmed=%v", round, err == nil))
 		}
 		poolBefore, _ := p.State.GetUnconfirmedTx(false)
 		blk, err := p.PackBlock(sn.K(0), int64(7000000+idx*1000+round))
@@ -140,6 +162,11 @@ func marathon(r *ev.Run, idx int) {
 			return
 		}
 		r.Count("marathon.blocks", 1)
+		for _, x := range wire.Transactions[1:] {
+			if !x.Autogen {
+				confirmedEarlier = append(confirmedEarlier, x)
+			}
+		}
 		// ---- what the producer still holds pending must be valid on the follower, then both agree ----
 		left, _ := p.State.GetUnconfirmedTx(false)
 		fpool, _ := f.State.GetUnconfirmedTx(false)
